@@ -272,13 +272,10 @@ var apis = []apiInfo{
 		ms := re.FindStringSubmatchIndex(s)
 		return fmt.Sprintf("%q %q", dst, re.ExpandString(nil, op.Arg, s, ms))
 	}, 0, true, 2, true},
-	{"PkgMatch", func(re *coregex.Regex, b []byte, s string, op *Op) string {
-		// package-level one-shot helpers compile the same pattern again (package-global pools
-		// and caches are the only state they can share with re)
-		m1, e1 := coregex.Match(re.String(), b)
-		m2, e2 := coregex.MatchString(re.String(), s)
-		return fmt.Sprint(m1, e1, m2, e2, re.Match(b))
-	}, 0, false, 1, false},
+	// (package-level one-shot helpers - coregex.Match(pattern, b) - are deliberately not in the
+	// table: they compile inside the call, compilation ranges over Go maps, and under the
+	// simulated scheduler the number of executed yield points then differs from process to
+	// process - the determinism self-test caught it: DIVERGENCE at GOMAXPROCS 16)
 	// lower-level engine API
 	{"Engine.IsMatch", func(re *coregex.Regex, b []byte, s string, op *Op) string {
 		return fmt.Sprint(re.VerifEngine().IsMatch(b))
